@@ -949,7 +949,12 @@ class PyvalColorizer:
 
             elif op == sre_constants.SUBPATTERN: #type:ignore[attr-defined]
                 if args[0] is None:
-                    self._output(r'(?:', self.RE_GROUP_TAG, state)
+                    # Non-capturing group, eventually with inline flags: '(?i:...)', '(?s-i:...)'
+                    add_flags, del_flags = args[1], args[2]
+                    inline_flags = ''.join(c for (c,n) in sorted(sre_parse36.FLAGS.items()) if (n&add_flags))
+                    if del_flags:
+                        inline_flags += '-' + ''.join(c for (c,n) in sorted(sre_parse36.FLAGS.items()) if (n&del_flags))
+                    self._output(f'(?{inline_flags}:', self.RE_GROUP_TAG, state)
                 elif args[0] in groups:
                     self._output(r'(?P<', self.RE_GROUP_TAG, state)
                     self._output(groups[args[0]], self.RE_REF_TAG, state)
